@@ -564,6 +564,77 @@ static void st_gen(Ctx& ctx) {
 // Successive ifft / irfft / IfftPlanR calls of neighbouring sizes inside ONE case (one thread): every call must still return the
 // inverse for ITS OWN arguments and every odd irfft size must still be rejected, whatever was requested just before
 // (a result or a rejection must not depend on the previous call).
+// =========================================================================================== stft / istft: every way of calling
+// The header documents the short forms: stft(x, nfft[, range]) and istft(S, nfft[, range[, method]]) use hann(nfft, periodic) and
+// overlap nfft/2; range defaults to Onesided, istft's method to Wola, iscola's to Ola.  Each short form must return exactly what the
+// fully explicit call returns (bit for bit - it is the same computation), for every range and both methods, whether or not the
+// pair is COLA (the forms must agree even where no reconstruction is claimed).
+namespace {
+bool same_frames(const std::vector<arr_cmplx>& a, const std::vector<arr_cmplx>& b) {
+    if (a.size() != b.size()) return false;
+    for (size_t i = 0; i < a.size(); ++i) {
+        if (a[i].size() != b[i].size()) return false;
+        for (int k = 0; k < a[i].size(); ++k) if (std::memcmp(&a[i][k], &b[i][k], sizeof(cmplx_t)) != 0 && !(a[i][k].re == b[i][k].re && a[i][k].im == b[i][k].im)) return false;
+    }
+    return true;
+}
+bool same_real(const arr_real& a, const arr_real& b) {
+    if (a.size() != b.size()) return false;
+    for (int i = 0; i < a.size(); ++i) if (!(a[i] == b[i]) && !(a[i] != a[i] && b[i] != b[i])) return false;
+    return true;
+}
+}   // namespace
+VK_SUB(forms, "stft_call_forms");
+static void forms_check(const Json& c, Out& o) {
+    const int nfft = c.geti("nfft"), L = c.geti("len"), nwin = c.geti("nwin"), ov = c.geti("ov");
+    Rng r(c.getu("seed"));
+    const arr_real x = to_arr(gen_real(r, L, int(S_GAUSS), 100));
+    const StftRange ranges[3] = {StftRange::Onesided, StftRange::Twosided, StftRange::Centered};
+    const char* rn[3] = {"onesided", "twosided", "centered"};
+    const arr_real hp = window::hann(nfft, false);
+    long ev = 0;
+    for (int ri = 0; ri < 3; ++ri) {
+        const auto S_short = stft(x, nfft, ranges[ri]);
+        const auto S_full = stft(x, hp, nfft / 2, nfft, ranges[ri]);
+        ++ev;
+        if (!same_frames(S_short, S_full)) { o.fail("forms:stft(x,nfft,range)", fmt("stft(x, %d, %s) differs from stft(x, hann(%d, periodic), %d, %d, %s) (len x = %d)", nfft, rn[ri], nfft, nfft / 2, nfft, rn[ri], L)); return; }
+        for (int mi = 0; mi < 2; ++mi) {
+            const OverlapMethod m = mi ? OverlapMethod::Wola : OverlapMethod::Ola;
+            ++ev;
+            if (!same_real(istft(S_full, nfft, ranges[ri], m), istft(S_full, hp, nfft / 2, nfft, ranges[ri], m))) {
+                o.fail("forms:istft(S,nfft,range,method)", fmt("istft(S, %d, %s, %s) differs from istft(S, hann(%d, periodic), %d, %d, ...) (len x = %d)", nfft, rn[ri], mi ? "wola" : "ola", nfft, nfft / 2, nfft, L));
+                return;
+            }
+        }
+        ++ev;
+        if (!same_real(istft(S_full, nfft, ranges[ri]), istft(S_full, hp, nfft / 2, nfft, ranges[ri], OverlapMethod::Wola))) { o.fail("forms:istft(S,nfft,range) default method", fmt("nfft=%d %s", nfft, rn[ri])); return; }
+    }
+    ++ev;
+    if (!same_frames(stft(x, nfft), stft(x, hp, nfft / 2, nfft, StftRange::Onesided))) { o.fail("forms:stft(x,nfft) default range", fmt("nfft=%d", nfft)); return; }
+    // an arbitrary window / overlap: the defaulted trailing arguments
+    const arr_real w = window::hamming(nwin, (c.geti("sym") != 0));
+    if (L >= nwin) {
+        const auto S1 = stft(x, w, ov, nfft);
+        ev += 4;
+        if (!same_frames(S1, stft(x, w, ov, nfft, StftRange::Onesided))) { o.fail("forms:stft(x,win,ov,nfft) default range", fmt("nfft=%d nwin=%d ov=%d", nfft, nwin, ov)); return; }
+        if (!same_real(istft(S1, w, ov, nfft), istft(S1, w, ov, nfft, StftRange::Onesided, OverlapMethod::Wola))) { o.fail("forms:istft(S,win,ov,nfft) defaults", fmt("nfft=%d nwin=%d ov=%d", nfft, nwin, ov)); return; }
+        const auto S2 = stft(x, w, ov, nfft, StftRange::Twosided);
+        if (!same_real(istft(S2, w, ov, nfft, StftRange::Twosided), istft(S2, w, ov, nfft, StftRange::Twosided, OverlapMethod::Wola))) { o.fail("forms:istft(...,range) default method", fmt("nfft=%d nwin=%d ov=%d", nfft, nwin, ov)); return; }
+        if (iscola(w, ov) != iscola(w, ov, OverlapMethod::Ola)) { o.fail("forms:iscola(win,ov) default method", fmt("nwin=%d ov=%d", nwin, ov)); return; }
+    }
+    o.evals = ev;
+    o.nontrivial(key_of(nfft, L, nwin, ov, 0xF0));
+    o.label(L >= 4 * nfft ? "frames:many" : L >= nfft ? "frames:few" : "frames:none (x shorter than the window)");
+}
+static void forms_gen(Ctx& ctx) {
+    ctx.rc("random", ctx.by_tier(6000, 60000), [&]() {
+        const int nfft = pick(0, 2) == 0 ? 4 * pick(2, 64) : (8 << pick(0, 7));
+        const int nwin = pick(0, 1) ? nfft : pick(3, nfft);
+        const int L = pick(0, 9) == 0 ? pick(1, nfft) : pick(nfft, 6 * nfft + 7);
+        return Json::object().set("nfft", nfft).set("len", L).set("nwin", nwin).set("ov", pick(0, nwin - 1)).set("sym", pick(0, 1)).set("seed", (long long)seed64());
+    });
+}
+
 VK_SUB(seqs, "inverse_call_sequences");
 static void seqs_check(const Json& c, Out& o) {
     int idx = 0;
